@@ -157,6 +157,16 @@ def check_doc(report, name, text, label):
         return          # C07's subject; the property quantifies over documents on which validation completes
     segs, term = src
     plain, tags = strip(html)
+    # 0. nothing of the source is written raw: outside the report's own tags the text holds no '>' and no '&' that is not one of
+    #    the four entities the report uses (a raw '<' shows up as a foreign tag below)
+    k0 = html.find('<div class="segs"')
+    raw = re.sub(r'<[^<>]*>', '', html[k0:]) if k0 >= 0 else ''
+    raw = raw.replace('&amp;', '').replace('&lt;', '').replace('&gt;', '').replace('&nbsp;', '')
+    if '>' in raw or '&' in raw or '<' in raw:
+        bad = next(c for c in raw if c in '<>&')
+        k = raw.find(bad)
+        report.fail('C19:raw-markup-character:%s' % {'<': 'lt', '>': 'gt', '&': 'amp'}[bad],
+                    'the report body holds an unescaped %r: ...%r...' % (bad, raw[max(0, k - 30):k + 30]), inp)
     # 1. complete document, own tags only
     if not (html.startswith('<html>') and html.rstrip().endswith('</html>')):
         report.fail('C19:incomplete-document', 'report does not start with <html> and end with </html>', inp)
@@ -234,6 +244,18 @@ def run(ctx, report):
     for k in sorted(datafiles):
         if datafiles[k].get('source'):
             check_doc(report, k, datafiles[k]['source'], 'corpus:' + k)
+    # dense conformant documents (many composites) whose component separator / element separator is a markup character
+    import confgen
+    for k in range(24 if thorough else 8):
+        name = rng.choice(['837.4010.X098.A1.xml', '837.5010.X222.A1.xml', '835.5010.X221.A1.xml'])
+        d = [('~', '*', '<'), ('~', '*', '&'), ('~', '*', '>'), ('~', '<', ':'), ('~', '&', '<'), ('>', '*', '<')][k % 6]
+        try:
+            segs, d, _sel = confgen.document(rng, name, d, n_st=1, p_seg=0.3, p_loop=0.6, max_segs=80)
+        except Exception:  # noqa
+            continue
+        report.count('delims:' + repr(''.join(d)))
+        report.count('composite-values', sum(1 for sg in segs for e in sg.split(d[1]) if d[2] in e))
+        check_doc(report, name, docgen.encode(segs, d, ''), 'dense:%s:%s' % (name, ''.join(d)))
     for k in range(120 if thorough else 25):
         name, d, text = hostile_doc(rng)
         report.count('delims:' + repr(''.join(d)))
